@@ -613,7 +613,7 @@ def run(rep: C.Report, tier: str) -> int:
         lg = f"({cl}_gradient {ys} {ss} {fs} {Jt})"
         pgf = f"(fun j => Q2R (nth j {gname} 0%Q))"
         tac = f"cbv [{plan} {gname}]; c06_unfold; interval with (i_prec 90)"
-        info = ("C", k, jc, th, {"lc": lc, "value": pv, "grad": pg})
+        info = ("C", k, jc, th, {"lc": lc, "value": pv, "grad": pg, "cost": pc, "cgrad": pcg})
         for gid, term, obs, mag in [(f"C{k}_value", f"posterior_logp {lv} (plan_logp {plan})", pv, mv + pm),
                                     (f"C{k}_cost", f"posterior_cost {lv} (plan_logp {plan})", pc, mv + pm)]:
             goals.append((gid, I.goal_abs_close(term, obs, tol_for(mag, obs)), tac))
@@ -795,7 +795,7 @@ def run(rep: C.Report, tier: str) -> int:
     seen = set()
     for gid, log in failed:
         info = goal_info[gid]
-        key = (info[0], info[1], "grad" if "grad" in gid else "value")
+        key = (info[0], info[1]) if info[0] == "C" else (info[0], info[1], "grad" if "grad" in gid else "value")
         if key in seen or len(seen) >= 4:
             continue
         seen.add(key)
@@ -816,12 +816,18 @@ def run(rep: C.Report, tier: str) -> int:
                 tharr = np.array(lc["theta"])
                 sv = float(like(tharr)) + float(pr(tharr))
                 sg = np.asarray(like.gradient(tharr)) + np.asarray(pr.gradient(tharr))
-            if "grad" not in gid and abs(sv - o["value"]) > 1e-9 * (abs(sv) + 1):
-                rep.violation("C06/posterior", f"Posterior value {o['value']!r} is not likelihood + prior = {sv!r}",
-                              {"case": describe_joint(jc, th), "likelihood": L5.describe(lc), "group": "C"}, True)
-                continue
-            if "grad" in gid and np.max(np.abs(sg - np.array(o["grad"])) / (np.abs(sg) + 1e-300)) > 1e-9:
-                rep.violation("C06/posterior", "Posterior gradient is not likelihood gradient + prior gradient",
+            rel = lambda a, b: abs(a - b) > 1e-9 * (abs(a) + abs(b) + 1e-300)
+            bad = []
+            if rel(sv, o["value"]):
+                bad.append(f"Posterior value {o['value']!r} is not likelihood + prior = {sv!r}")
+            if rel(-sv, o["cost"]):
+                bad.append(f"Posterior cost {o['cost']!r} is not -(likelihood + prior) = {-sv!r}")
+            if any(rel(float(a), float(b)) for a, b in zip(sg, o["grad"])):
+                bad.append(f"Posterior gradient {o['grad']} is not likelihood gradient + prior gradient = {list(map(float, sg))}")
+            if any(rel(-float(a), float(b)) for a, b in zip(sg, o["cgrad"])):
+                bad.append(f"Posterior cost_gradient {o['cgrad']} is not -(likelihood gradient + prior gradient)")
+            if bad:
+                rep.violation("C06/posterior", "; ".join(bad[:2]),
                               {"case": describe_joint(jc, th), "likelihood": L5.describe(lc), "group": "C"}, True)
                 continue
         rep.violation("C06/correspondence", f"model and implementation disagree on goal {gid}, property not seen to fail",
@@ -903,6 +909,22 @@ def replay(path):
         t = owner_table(jc["comps"])
         ok_cfg = sorted(t) == list(range(jc["n"])) and all(len(v) == 1 for v in t.values())
         return 1 if (out["status"] == "ok") != ok_cfg else 0
+    if group == "C":
+        from inference.posterior import Posterior
+        lc = L5.undescribe(rp["likelihood"])
+        with warnings.catch_warnings(), quiet():
+            like = L5.build(lc)
+            pr = run_joint(jc, None, 0, ur)["obj"]
+            post = Posterior(likelihood=like, prior=pr)
+            t = np.array(lc["theta"])
+            sv = float(like(t)) + float(pr(t))
+            sg = np.asarray(like.gradient(t)) + np.asarray(pr.gradient(t))
+            got = (float(post(t)), float(post.cost(t)), np.asarray(post.gradient(t)), np.asarray(post.cost_gradient(t)))
+        print("likelihood + prior:", sv, list(sg))
+        print("Posterior value, cost, gradient, cost_gradient:", got)
+        ok = (abs(got[0] - sv) <= 1e-9 * (abs(sv) + 1) and abs(got[1] + sv) <= 1e-9 * (abs(sv) + 1)
+              and np.allclose(got[2], sg, rtol=1e-9, atol=0) and np.allclose(got[3], -sg, rtol=1e-9, atol=0))
+        return 0 if ok else 1
     if group == "D":
         print("replay of a guess-selection case: see the 'returned' and 'costs' fields of the replay file")
         return 1
